@@ -33,7 +33,8 @@ structure Closed (B Inv : State → Held → Prop) : Prop where
   enterFiles : ∀ s L now, B s L → Inv s L → s.quiet = false → FdtQuiet s now → Inv { s with quiet := true } L
   emitRead : ∀ s L now, B s L → Inv s L → s.quiet = false → Inv (emit s (.opRead now)) L
   emitIdle : ∀ s L now, B s L → Inv s L → s.quiet = false → Inv (emit s (.idle now)) L
-  publish : ∀ s L now, B s L → Inv s L → Inv (publish s now) L
+  /-- the republication at expiry inside `get_next_fdt_transfer` (the only unconditional use of `publish`) -/
+  publish : ∀ s L now, B s L → Inv s L → currentFdtWillExpire s now = true → Inv (publish s now) L
   fdtAdvance : ∀ s L now, B s L → Inv s L → s.quiet = false → s.fdtSess = none →
     Inv (fdtAdvance s now) L
   fileStart : ∀ s L prio now tk t, B s L → Inv s L → s.quiet = true → findNext s prio now s.queue = some t →
@@ -60,7 +61,7 @@ structure ClosedOps (B Inv : State → Held → Prop) : Prop where
   add : ∀ s L a, B s L → Inv s L → Inv (addObject s a).1 L
   remove : ∀ s L t, B s L → Inv s L → Inv (removeObject s t).1 L
   trigger : ∀ s L t ts, B s L → Inv s L → Inv (triggerTransferAt s t ts).1 L
-  emitPublish : ∀ s L now, B s L → Inv s L → Inv (emit s (.opPublish now)) L
+  publishOp : ∀ s L now, B s L → Inv s L → Inv (publishOp s now) L
   complete : ∀ s L, B s L → Inv s L → Inv { s with complete := true } L
 
 def Top : State → Held → Prop := fun _ _ => True
@@ -76,7 +77,7 @@ theorem Closed.and {B A : State → Held → Prop} (hb : Closed0 B) (ha : Closed
   enterFiles := fun s L now _ h hq q => ⟨hb.enterFiles s L now trivial h.1 hq q, ha.enterFiles s L now h.1 h.2 hq q⟩
   emitRead := fun s L now _ h hq => ⟨hb.emitRead s L now trivial h.1 hq, ha.emitRead s L now h.1 h.2 hq⟩
   emitIdle := fun s L now _ h hq => ⟨hb.emitIdle s L now trivial h.1 hq, ha.emitIdle s L now h.1 h.2 hq⟩
-  publish := fun s L now _ h => ⟨hb.publish s L now trivial h.1, ha.publish s L now h.1 h.2⟩
+  publish := fun s L now _ h he => ⟨hb.publish s L now trivial h.1 he, ha.publish s L now h.1 h.2 he⟩
   fdtAdvance := fun s L now _ h hq h1 =>
     ⟨hb.fdtAdvance s L now trivial h.1 hq h1, ha.fdtAdvance s L now h.1 h.2 hq h1⟩
   fileStart := fun s L prio now tk t _ h hq e =>
@@ -94,7 +95,7 @@ theorem ClosedOps.and {B A : State → Held → Prop} (hb : ClosedOps0 B) (ha : 
   add := fun s L a _ h => ⟨hb.add s L a trivial h.1, ha.add s L a h.1 h.2⟩
   remove := fun s L t _ h => ⟨hb.remove s L t trivial h.1, ha.remove s L t h.1 h.2⟩
   trigger := fun s L t ts _ h => ⟨hb.trigger s L t ts trivial h.1, ha.trigger s L t ts h.1 h.2⟩
-  emitPublish := fun s L now _ h => ⟨hb.emitPublish s L now trivial h.1, ha.emitPublish s L now h.1 h.2⟩
+  publishOp := fun s L now _ h => ⟨hb.publishOp s L now trivial h.1, ha.publishOp s L now h.1 h.2⟩
   complete := fun s L _ h => ⟨hb.complete s L trivial h.1, ha.complete s L h.1 h.2⟩
 
 /-! ### field-preservation facts of the primitives -/
@@ -221,9 +222,9 @@ theorem transferDoneFile_quiet (s : State) (t now : Nat) : (transferDoneFile s t
     · rfl
 
 theorem publishTry_inv {Inv : State → Held → Prop} (hc : Closed0 Inv) (s : State) (L : Held) (now : Nat)
-    (h : Inv s L) : Inv (publishTry s now) L := by
+    (h : Inv s L) (he : currentFdtWillExpire s now = true) : Inv (publishTry s now) L := by
   rcases publishTry_cases s now with e | e
-  · rw [e]; exact hc.publish s L now trivial h
+  · rw [e]; exact hc.publish s L now trivial h he
   · rw [e]; exact h
 
 theorem fdtGetNext_inv {Inv : State → Held → Prop} (hc : Closed0 Inv) (s : State) (L : Held) (now : Nat)
@@ -234,7 +235,7 @@ theorem fdtGetNext_inv {Inv : State → Held → Prop} (hc : Closed0 Inv) (s : S
   · exact h
   · have h1 : Inv (fdtMaybePublish s now) L := by
       unfold fdtMaybePublish; split
-      · exact publishTry_inv hc s L now h
+      · rename_i he; exact publishTry_inv hc s L now h he
       · exact h
     have hs1 : (fdtMaybePublish s now).fdtSess = none := by rw [fdtMaybePublish_fdtSess, hs]
     have hq1 : (fdtMaybePublish s now).quiet = false := by rw [fdtMaybePublish_quiet, hq]
@@ -709,7 +710,7 @@ theorem step_inv (hc : Closed0 Inv) (ho : ClosedOps0 Inv) (s : State) (op : Op)
     have : heldOf (publishOp s now) = heldOf s := by
       unfold heldOf publishOp; rw [publishTry_sessions]; rfl
     rw [this]
-    exact ⟨publishTry_inv hc _ _ now (ho.emitPublish s _ now trivial h), by
+    exact ⟨ho.publishOp s _ now trivial h, by
       show (publishTry (emit s (.opPublish now)) now).quiet = false
       rw [publishTry_quiet]; exact hq⟩
   | remove t =>
